@@ -73,9 +73,10 @@ C02_NoNeedlessRun ==
 \* nothing changed since a successful build of these targets (possibly cleaned in between: C10)
 UtdScope == Scope # {} /\ Scope \subseteq DOMAIN g.utd0
 InPlace == \A p \in Scope : HoldsPre(p, g.utd0[p].c)
-PairwiseDifferent == \A p, q \in Scope : p # q => g.utd0[p].c # g.utd0[q].c
-RestoredAsBefore == /\ ev.verdict = "ok"
-                    /\ \A p \in Scope : Has(ws, p) /\ ws[p].c = g.utd0[p].c /\ ws[p].x = g.utd0[p].x
+\* one cache file cannot serve two restores, and it carries one permission
+PairwiseDifferent == \A p \in Scope : \A q \in DOMAIN g.utd0 : p # q => g.utd0[p].c # g.utd0[q].c
+RestoredContent == ev.verdict = "ok" /\ \A p \in Scope : Has(ws, p) /\ ws[p].c = g.utd0[p].c
+RestoredAsBefore == RestoredContent /\ \A p \in Scope : ws[p].x = g.utd0[p].x
 C02_RepeatIsNoOp ==
   (AtRet("build") /\ UtdScope /\ InPlace) =>
      /\ RestoredAsBefore /\ g.execs = {}
@@ -139,8 +140,10 @@ NowContents == {ws[p].c : p \in AllTargets \cap DOMAIN ws} \cup {cache[n].c : n 
 ExemptContents == {Pre.ws[p].c : p \in {q \in AllTargets \cap DOMAIN Pre.ws : Tainted(q)}}
                   \cup (IF ev.a = "crash" /\ Has(ev, "inexec") /\ KnownRid(ev.inexec)
                         THEN {Pre.ws[p].c : p \in SeqSet(RuleById(ev.inexec).tg) \cap DOMAIN Pre.ws} ELSE {})
+\* the property assumes deterministic commands: an invocation in which a command with an undeclared input ran is not judged
+NonDetRan == \E x \in g.execs : KnownRid(x.rid) /\ RuleById(x.rid).mask # <<>>
 C08_NothingLost ==
-  (Distinct /\ (g.kind # "none" \/ ev.a \in {"ret", "crash"})) => PreContents \subseteq (NowContents \cup ExemptContents)
+  (Distinct /\ ~NonDetRan /\ (g.kind # "none" \/ ev.a \in {"ret", "crash"})) => PreContents \subseteq (NowContents \cup ExemptContents)
 
 (* ---------------- C09 ------------------------------------------------------ *)
 C09_OnlyScopeTouched ==
@@ -150,9 +153,9 @@ C09_OnlyScopeTouched ==
 C10_CleanMovesToCache ==
   (AtRet("clean") /\ ev.verdict = "cleaned") =>
      \A p \in Scope : /\ ~Has(ws, p)
-                      /\ Has(Pre.ws, p) => \E n \in DOMAIN cache : cache[n].c = Pre.ws[p].c /\ cache[n].x = Pre.ws[p].x
+                      /\ Has(Pre.ws, p) => \E n \in DOMAIN cache : cache[n].c = Pre.ws[p].c
 C10_BuildBringsBack ==
-  (AtRet("build") /\ UtdScope /\ ~InPlace) => RestoredAsBefore /\ (PairwiseDifferent => g.execs = {})
+  (AtRet("build") /\ UtdScope /\ ~InPlace) => RestoredContent /\ (PairwiseDifferent => (RestoredAsBefore /\ g.execs = {}))
 
 (* ---------------- C11 ------------------------------------------------------ *)
 C11_CrashStateSane == ev.a = "crash" => rdir.tab # "torn" /\ rdir.htorn = {}
